@@ -4,8 +4,8 @@
 
 namespace {
 
-enum RKind { R_VAL = 0, R_EXC, R_DROP, R_MOVECALL, R_MOVEDIE, R_NOP, R_NKINDS };
-static const char *rk_names[] = {"val", "exc", "drop", "mvcall", "mvdie", "nop"};
+enum RKind { R_VAL = 0, R_EXC, R_DROP, R_MOVECALL, R_MOVEDIE, R_ASSIGN, R_NOP, R_NKINDS };
+static const char *rk_names[] = {"val", "exc", "drop", "mvcall", "mvdie", "assign", "nop"};
 enum WKind { W_NONE = 0, W_WAIT, W_CORO, W_HASV };
 static const char *wk_names[] = {"none", "wait", "coro", "hasv"};
 
@@ -115,6 +115,11 @@ static void resolver(cocls::promise<T> &p, int i, int kind) {
             s[S_RET + i] = q ? 3 : 4;
             break;  // q dies here: resolves to no-value if it holds the claim
         }
+        case R_ASSIGN:
+            // move-assigning over the live promise drops what it pointed to (resolution to no-value); nothing is reported
+            p = cocls::promise<T>();
+            s[S_RET + i] = 5;
+            break;
         default: break;
     }
 }
@@ -249,7 +254,7 @@ static void reg_type(const char *tname) {
                     for (int i = 0; i < n; i++) nop += k[i] == R_NOP;
                     if (nop && nop != n) continue;  // NOP rows: only "all NOP" (destruction alone resolves)
                     if (nop && n > 1) continue;
-                    if (n == 1 && k[0] != R_NOP) continue;  // single resolver rows other than NOP add nothing
+                    if (n == 1 && k[0] != R_NOP && k[0] != R_ASSIGN) continue;  // other single resolver rows add nothing
                     for (int wk = 0; wk < 4; wk++) {
                         std::string name = std::string("once_") + tname + "_";
                         for (int i = 0; i < n; i++) name += std::string(i ? "-" : "") + rk_names[k[i]];
